@@ -71,7 +71,7 @@ func props() []prop {
 			DesignRef:   "DESIGN.md §4 C11",
 			Assumptions: with("the proxy never drops or reorders bytes; the link stays up"),
 			Units: []unit{
-				{Check: "remotestream", Pkg: "internal/actor", Shards: [2]int{6, 8}, Timeout: [2]time.Duration{8 * min, 40 * min}, CrashKey: "c11-crash", OnlyKinds: []string{"c11-", "harness-"}},
+				{Check: "remotestream", Pkg: "internal/actor", Instr: []string{"internal/remoting/mailbox_central.go"}, Shards: [2]int{6, 8}, Timeout: [2]time.Duration{8 * min, 40 * min}, CrashKey: "c11-crash", OnlyKinds: []string{"c11-", "harness-"}},
 			},
 		},
 		{
@@ -105,8 +105,8 @@ func props() []prop {
 			DesignRef:   "DESIGN.md §4 C10",
 			Assumptions: with("only the API documented as concurrency-safe is called from foreign goroutines"),
 			Units: []unit{
-				{Check: "hammer", Pkg: "internal/actor", Race: true, Instr: []string{"internal/future/future.go", "internal/actor/system.go"}, Shards: [2]int{6, 8}, Timeout: [2]time.Duration{8 * min, 40 * min}, CrashKey: "c10-crash", HangKind: "c10-hang", OnlyKinds: []string{"c10-", "data-race", "harness-"}},
-{Check: "hammerfast", Pkg: "internal/actor", Instr: []string{"internal/future/future.go", "internal/actor/system.go"}, Shards: [2]int{6, 8}, Timeout: [2]time.Duration{8 * min, 40 * min}, CrashKey: "c10-crash", HangKind: "c10-hang", OnlyKinds: []string{"c10-", "data-race", "harness-"}},
+				{Check: "hammer", Pkg: "internal/actor", Race: true, Instr: []string{"internal/future/future.go", "internal/actor/system.go", "internal/actor/event_stream.go"}, Shards: [2]int{6, 8}, Timeout: [2]time.Duration{8 * min, 40 * min}, CrashKey: "c10-crash", HangKind: "c10-hang", OnlyKinds: []string{"c10-", "data-race", "harness-"}},
+{Check: "hammerfast", Pkg: "internal/actor", Instr: []string{"internal/future/future.go", "internal/actor/system.go", "internal/actor/event_stream.go"}, Shards: [2]int{6, 8}, Timeout: [2]time.Duration{8 * min, 40 * min}, CrashKey: "c10-crash", HangKind: "c10-hang", OnlyKinds: []string{"c10-", "data-race", "harness-"}},
 			},
 		},
 		{
